@@ -205,6 +205,15 @@ def run_cases(chk, tier):
                     arr = geo.make_array(kind, els, st)
                     check_array(chk, kind, st, arr, els, r, ("large-coordinates",))
             chk.count("large-coordinates-narrow-storage")
+        # small shapes far from the origin (coordinates near 2^27 and 2^30: products of two coordinates leave 2^53, differences do not):
+        # the measures are those of the same shape at the origin
+        if kind in HAS_AREA or kind in HAS_LEN:
+            for shift in ((2 ** 27 + 1, 2 ** 27 + 3), (-(2 ** 30) - 7, 2 ** 28 + 5)):
+                els = [e for e in geo.structured_elements(kind, r, r.randint(3, 6), mag=12)
+                       if e is None or all(isinstance(c, int) for v in geo.verts_of(kind, e) for c in v)]
+                els = [translate(kind, e, *shift) for e in els]
+                check_array(chk, kind, "float64", geo.make_array(kind, els, "float64"), els, r, ("far-from-the-origin",))
+            chk.count("far-from-the-origin")
 
 
 def main(tier):
